@@ -138,6 +138,14 @@ class Unsupported(Exception):
   """Construct outside the modelled subset: the program is 'not encodable'."""
 
 
+SLOT_LIMIT = [400]
+
+
+def check_budget(n):
+  if n > SLOT_LIMIT[0]:
+    raise Unsupported('slot budget exceeded (%d > %d)' % (n, SLOT_LIMIT[0]))
+
+
 # ---------------------------------------------------------------- interned strings
 
 class Strings:
@@ -546,7 +554,8 @@ def agg_set(members):
   for i, (g, x) in enumerate(ms):
     first = AND(g, NOT(OR(*[AND(g2, ident(x, y)) for g2, y in ms[:i]])))
     out.append((first, x))
-  return L(out, 'set', False)
+  # the Python UDF DistinctListAgg is never instantiated on an empty input: NULL
+  return L(out, 'set', NOT(OR(*[g for g, _ in ms])))
 
 
 def agg_argbest(members, is_min, limit):
